@@ -369,6 +369,7 @@ pub fn run(which: Which, args: &Args) -> i32 {
     if which == Which::C01 {
         // the real RTU server task on a pty that is lost and comes back (net engine)
         crate::util::merge_net_leg(&mut ev, args, "c01pty");
+        crate::util::merge_net_leg(&mut ev, args, "c01tls");
     }
     if which == Which::C08 {
         run_read_only_direct(seed, &mut ev);
@@ -396,6 +397,8 @@ pub fn run(which: Which, args: &Args) -> i32 {
             ("requests".into(), args.tier.pick(1_000_000, 30_000_000)),
             ("replies_compared".into(), args.tier.pick(300_000, 10_000_000)),
             ("tls_roles_and_arguments_checked".into(), if which == Which::C08 { 20 } else { 0 }),
+            ("tls_backlog_sessions".into(), if which == Which::C01 { args.tier.pick(8, 32) } else { 0 }),
+            ("rtu_server_reopen_sessions".into(), if which == Which::C01 { args.tier.pick(4, 24) } else { 0 }),
         ],
         min_classes: 30,
     };
